@@ -42,6 +42,8 @@ fn main() {
         "host-register-names" => drive::register_names(rest),
         "nameres-run" => util::run_cases(rest, nameres::run_case),
         "budget-drive" => vmtrace::budget_drive(rest),
+        "alloc-drive" => vmtrace::alloc_drive(rest),
+        "gc-drive" => vmtrace::gc_drive(rest),
         "cards-show" => drive::show(rest),
         "table-replay" => util::run_cases(rest, tables::replay_case),
         "table-drive" => tables::drive(rest),
